@@ -47,6 +47,8 @@ struct RunOut {
     tail_ids: Vec<u64>,
     /// id -> index of the family file (in stream order) that holds it
     file_of: std::collections::HashMap<u64, usize>,
+    /// after shutdown: (plain files that count against the log limit, compressed files, names)
+    survivors: (usize, usize, Vec<String>),
     /// what is wrong with the output of the bystander writer, if anything
     bystander: Option<String>,
 }
@@ -77,6 +79,7 @@ fn run_history(
         damaged: None,
         tail_ids: Vec::new(),
         file_of: std::collections::HashMap::new(),
+        survivors: (0, 0, Vec::new()),
         bystander: None,
     };
     // a bystander: a second, independent file writer used from the same thread, whose own file
@@ -175,6 +178,15 @@ fn run_history(
         Err(e) => return Err(format!("cannot read the log directory: {e}")),
         Ok(obs) => {
             out.files_after_tail = obs.family.len();
+            // what counts against the limits: with a current-infix naming the rotated plain
+            // files, with a direct naming all plain files (the newest is the current one)
+            let plain = obs
+                .family
+                .iter()
+                .filter(|f| !f.entry.gz && f.entry.kind != family::Kind::Current)
+                .count();
+            let gz = obs.family.iter().filter(|f| f.entry.gz).count();
+            out.survivors = (plain, gz, obs.names());
             // twins may coexist after a compression fault
             let mut i = 0;
             let mut stream = Vec::new();
@@ -255,7 +267,9 @@ fn gen(rng: &mut Rng, dir: &std::path::Path, thorough: bool) -> (FlwCfg, Vec<Op>
             2 => Clean::Both(1, rng.range(1, 2) as usize),
             _ => Clean::Never,
         },
-        clean_bg: false,
+        // now and then the cleanup runs in its own thread (fault occurrences are then counted
+        // across both threads; the oracle does not depend on which call of a kind fails)
+        clean_bg: rng.chance(1, 3),
         wmode: if rng.chance(1, 4) { WMode::BufDont(32) } else { WMode::Direct },
         crlf: false,
         append: rng.chance(1, 2),
@@ -567,6 +581,27 @@ pub fn run_case(ctx: &mut CaseCtx) -> CaseResult {
                         out.files_before_tail, out.files_after_tail, cfg.crit
                     ),
                 );
+            }
+        }
+        // recovery of the cleanup: the tail rotated several times after the faults had stopped,
+        // so at shutdown the configured limits hold again
+        if res.verdict == Verdict::Held {
+            if let Some((k, m)) = cfg.clean.limits() {
+                let k_eff = if cfg.names.naming.is_direct() { k.max(1) } else { k };
+                let (plain, gz, names) = &out.survivors;
+                res.count("cleanup_limits_checked_after_recovery", 1);
+                if *plain > k_eff || *gz > m {
+                    res.violate(
+                        "no-recovery",
+                        format!(
+                            "C19/no-recovery/{facts}/cleanup-limits-exceeded{}",
+                            if cfg.clean_bg { "/background-thread" } else { "" }
+                        ),
+                        format!(
+                            "{ctxt}: after {tail} more records and shutdown, {plain} plain and {gz} compressed files count against the limits ({k_eff}, {m}): {names:?}"
+                        ),
+                    );
+                }
             }
         }
         if res.verdict != Verdict::Held {
